@@ -29,6 +29,8 @@ ANCHORS = [
     "mapping_service/api.py:get_fastapi_router.<locals>.resolve_get",
     "mapping_service/api.py:get_fastapi_router.<locals>.resolve_post",
 ]
+# public functions the driver does not call itself (the library reaches them internally today): missing => reported, not inconclusive
+SOFT_ANCHORS = ['mapping_service/api.py:MappingServiceGraph.triples', 'mapping_service/rdflib_custom.py:MappingServiceSPARQLProcessor.query', 'mapping_service/utils.py:parse_header', 'mapping_service/api.py:get_flask_mapping_blueprint', 'mapping_service/api.py:get_fastapi_router']
 DECIDING = ["mapping:graph", "mapping:web", "mapping:content-type", "handle_header"]
 REPO_TESTS = True
 RULE = (
